@@ -329,6 +329,9 @@ def run_tape(part, fmt, tape, orders, case=None):
         finally:
             w.close()
         part.traces += 1
+        # one history = one final tape state; one transition per file written
+        part.states += 1
+        part.transitions += len(tape)
         if not ok:
             return
         for order in orders:
